@@ -45,7 +45,13 @@ class Problem:
         hx = np.array([2, 1, 1, 1, 1, 1, 1, 2.])*100
         hy = np.array([2, 1.5, 1, 1, 1, 1, 1.5, 2.])*100
         self.grid = emg3d.TensorMesh([hx, hy, hx], (-450, -500, -450))
-        if variant.get("twofreq"):
+        if variant.get("four"):
+            self.src = {'TxED-1': (-50, 0, 0, 0, 0),
+                        'TxED-2': (50, 20, 10, 30, 10)}
+            self.freqs = [1.0, 3.0]
+            self.pairs = {1: ('TxED-1', 'f-1'), 2: ('TxED-1', 'f-2'),
+                          3: ('TxED-2', 'f-1'), 4: ('TxED-2', 'f-2')}
+        elif variant.get("twofreq"):
             self.src = {'TxED-1': (-50, 0, 0, 20, 5)}
             self.freqs = [1.0, 3.0]
             self.pairs = {1: ('TxED-1', 'f-1'), 2: ('TxED-1', 'f-2')}
